@@ -842,25 +842,25 @@ def c16_plan(pid, tier, seed, t0):
 
     # native stress + first-use races, 16 processes at a time
     jobs = []
-    stress_runs = 24 if tier == "quick" else 600
+    stress_runs = 24 if tier == "quick" else 300
     ops = 1500 if tier == "quick" else 5000
     for k in range(stress_runs):
         jobs.append(("stress", [conc, "stress", str([2, 4, 16][k % 3]), str(ops), str(seed * 1000 + k)]))
-    for k in range(12 if tier == "quick" else 300):
+    for k in range(12 if tier == "quick" else 150):
         jobs.append(("burst", [conc, "burst", str([2, 4, 8][k % 3]), str(3000 if tier == "quick" else 20000), str(seed * 31 + k)]))
-    for k in range(16 if tier == "quick" else 400):
-        jobs.append(("runtimes", [conc, "runtimes", str([2, 4, 8, 4][k % 4]), str(250 if tier == "quick" else 4000), str(seed * 53 + k)]))
-    for k in range(12 if tier == "quick" else 300):
+    for k in range(16 if tier == "quick" else 160):
+        jobs.append(("runtimes", [conc, "runtimes", str([2, 4, 8, 4][k % 4]), str(250 if tier == "quick" else 2000), str(seed * 53 + k)]))
+    for k in range(12 if tier == "quick" else 150):
         jobs.append(("twins", [conc, "twins", str([2, 4, 8][k % 3]), str(400 if tier == "quick" else 4000), str(seed * 71 + k)]))
-    for k in range(6 if tier == "quick" else 120):
+    for k in range(6 if tier == "quick" else 48):
         jobs.append(("hotchurn", [conc, "hotchurn", str([8, 4, 16][k % 3]), str(3000 if tier == "quick" else 10000), str(seed * 91 + k)]))
-    for k in range(9 if tier == "quick" else 200):
+    for k in range(9 if tier == "quick" else 100):
         jobs.append(("handoff", [conc, "handoff", str([4, 8, 16][k % 3]), str(300 if tier == "quick" else 3000), str(seed * 37 + k)]))
-    for k in range(6 if tier == "quick" else 150):
+    for k in range(6 if tier == "quick" else 64):
         jobs.append(("crowd", [conc, "crowd", str([8, 16, 4][k % 3]), str(40 if tier == "quick" else 300), str(seed * 41 + k)]))
-    for k in range(4 if tier == "quick" else 12):
+    for k in range(4 if tier == "quick" else 8):
         jobs.append(("hammer", [conc, "hammer", str([8, 32, 16, 24][k % 4]), str(600 if tier == "quick" else 2500), str(seed * 43 + k)]))
-    first_runs = 200 if tier == "quick" else 10000
+    first_runs = 200 if tier == "quick" else 5000
     for k in range(first_runs):
         spins = rnd.choice([0, 0, 1000, 10000, 100000, 1000000, 3000000])
         jobs.append(("first", [conc, "first", str(rnd.choice([2, 4, 8, 16])), str(spins), str(seed * 1000 + k)]))
